@@ -91,6 +91,20 @@ def run(cx):
         gstats[fam] = {"programs": len(cases), "unknown": len(unknown), "depth": d}
         cx.sample({"family": fam, "src": cases[len(cases) // 2]["src"][-200:]})
     cx.cover["enumerated_families"] = gstats
+    # ---- known findings: replay each pinned witness on the real pipeline
+    for f in cx.known_findings():
+        w = f.get("witness", {})
+        if "expected" not in w:
+            continue
+        wp = cx.path("witness_%s.ndjson" % f["id"])
+        vlib.write_ndjson(wp, [{"id": 0, "src": w["src"], "ast": [{"k": "raw", "src": w["src"]}], "hoist": []}])
+        p = cx.run([lang, "rerun", "-in", wp, "-ids", "0"])
+        obs = json.loads(p.stdout.decode().splitlines()[0])["obs"]
+        still = obs.get("k") != w["expected"]["k"] or (obs.get("k") == "ok" and obs.get("v") != w["expected"]["v"])
+        if still:
+            cx.report_known(f)
+        else:
+            cx.notes.append("known finding %s: witness no longer fails" % f["id"])
     cx.cover.update({
         "traces_validated_against_impl": checked,
         "programs": total,
